@@ -159,6 +159,9 @@ def index_bounds(ctx: Ctx, rs: RuleSet):
   key = f.params[1]
   counts = roles.assigned_from(f, lambda e: isinstance(e, ast.Attribute) and
                                e.attr == 'var_positional_start')
+  for _ in range(3):  # and locals that take the value over
+    counts |= roles.assigned_from(f, lambda e: isinstance(
+        e, ast.Name) and e.id in counts)
   ok = False
   detail = 'no raising upper-bound test on the index found'
   for n in _raising_if_nodes(g):
@@ -233,8 +236,14 @@ def index_bounds(ctx: Ctx, rs: RuleSet):
   int_branch = [n for n in g.nodes() if g.kind[n] == 'if' and 'slice' in unparse(
       g.stmt[n].test) and 'isinstance' in unparse(g.stmt[n].test)]
   ok = False
+  # the key, or a local that holds it (a helper's parameter after expansion)
+  key_names = {key}
+  for _ in range(3):
+    key_names |= roles.assigned_from(f, lambda e: isinstance(
+        e, ast.Name) and e.id in key_names)
   for n in _raising_if_nodes(g):
-    atoms = _bound_atoms(g.stmt[n].test, f)
+    atoms = [(key if nm in key_names else nm, op_, bd_)
+             for nm, op_, bd_ in _bound_atoms(g.stmt[n].test, f)]
     upper = any(name == key and bound in {f'len({v})' for v in views} and (
         (op is ast.Lt) or (op is ast.GtE)) for name, op, bound in atoms)
     lower = any(name == key and bound == '0' for name, op, bound in atoms)
